@@ -236,6 +236,17 @@ Section Parser.
 
   Definition is_quote_rune (ch : Z) : bool := (ch =? c_sq) || (ch =? c_dq).
 
+  (** "skip single or double quote": ch := peekNonSpaceRune(); if quote then forward(1) *)
+  Definition header_quote (st : pst) : pst :=
+    let '(st, ch) := peek_ns st in
+    if is_quote_rune ch then forward 1 st else st.
+
+  (** the end of parseHSMSHeader: optional closing quote, optional W *)
+  Definition header_tail (st : pst) : pst * bool :=
+    let st := header_quote st in
+    let '(st, ch) := peek_ns st in
+    if ch =? 87 then (forward 1 st, true) else (st, false).
+
   (** parseHSMSHeader: (stream, function, wbit) *)
   Definition parse_header (st : pst) : pres (Z * Z * bool) :=
     match index_any2_from 10 46 (data st) 0 with
@@ -247,8 +258,7 @@ Section Parser.
                   | Some midx => forward (midx + 1) st
                   | None => st
                   end in
-        let '(st, ch) := peek_ns st in
-        let st := if is_quote_rune ch then forward 1 st else st in
+        let st := header_quote st in
         let '(st, r) := next_rune st in
         if negb (r =? 83) then PErr PE_Stream (pos st) else
         match next_number 8 PE_Code st with
@@ -262,10 +272,7 @@ Section Parser.
             | PErr e o => PErr e o
             | PFuel => PFuel
             | POk fv st =>
-                let '(st, ch) := peek_ns st in
-                let st := if is_quote_rune ch then forward 1 st else st in
-                let '(st, ch) := peek_ns st in
-                if ch =? 87 then POk (sv, fv, true) (forward 1 st) else POk (sv, fv, false) st
+                let '(st, wb) := header_tail st in POk (sv, fv, wb) st
             end
         end
     end.
@@ -416,6 +423,20 @@ Section Parser.
         else PErr PE_ListChild (pos st)
     end.
 
+  (** the type switch of parseItem, over a parser for list children *)
+  Definition parse_body (pitem : pst -> pres item) (ty : itype) (st : pst) : pres item :=
+    match ty with
+    | TList => parse_list_loop pitem (S (length (data st))) st []
+    | TAscii => parse_ascii st
+    | TJis8 => parse_quoted IJis8 PE_JQuote PE_JUnclosed st
+    | TLocal => parse_quoted ILocal PE_WQuote PE_WUnclosed st
+    | TBoolean => parse_values bool_token PE_Bool IBoolean st
+    | TBinary => parse_values binary_token PE_Binary IBinary st
+    | TFloat w => parse_values (fparse w) PE_Float (IFloat w) st
+    | TInt w => parse_values (int_token w) PE_Int (IInt w) st
+    | TUint w => parse_values (uint_token w) PE_Uint (IUint w) st
+    end.
+
   (** parseItem *)
   Fixpoint parse_item (fuel : nat) (st : pst) : pres item :=
     match fuel with
@@ -430,20 +451,7 @@ Section Parser.
             | PErr e o => PErr e o
             | PFuel => PFuel
             | POk _ st =>
-                let st := skip_comment st in
-                let r :=
-                  match ty with
-                  | TList => parse_list_loop (parse_item fuel') (S (length (data st))) st []
-                  | TAscii => parse_ascii st
-                  | TJis8 => parse_quoted IJis8 PE_JQuote PE_JUnclosed st
-                  | TLocal => parse_quoted ILocal PE_WQuote PE_WUnclosed st
-                  | TBoolean => parse_values bool_token PE_Bool IBoolean st
-                  | TBinary => parse_values binary_token PE_Binary IBinary st
-                  | TFloat w => parse_values (fparse w) PE_Float (IFloat w) st
-                  | TInt w => parse_values (int_token w) PE_Int (IInt w) st
-                  | TUint w => parse_values (uint_token w) PE_Uint (IUint w) st
-                  end in
-                match r with
+                match parse_body (parse_item fuel') ty (skip_comment st) with
                 | POk x st => POk x (skip_comment st)
                 | e => e
                 end
